@@ -555,7 +555,7 @@ func (i *interpreter) fromJSON(t types.Type, j iface, depth int) value {
 		switch {
 		case info&types.IsString != 0:
 			switch j.v.(type) {
-			case string, symStr, opaqueStr:
+			case string, symStr, opaqueStr, *blob:
 				return j.v
 			}
 			panic(jsonError{"cannot unmarshal " + j.t.String() + " into string"})
@@ -716,7 +716,60 @@ func (i *interpreter) nativeJSONToValue(x interface{}) iface {
 	panic(unsupported(fmt.Sprintf("native JSON value %T", x)))
 }
 
+// jsonMergeDiff computes the RFC 7386 merge patch that turns orig into mod (both in generic JSON form).
+func (i *interpreter) jsonMergeDiff(orig, mod iface) (iface, bool) {
+	om, ok1 := orig.v.(*gomap)
+	mm, ok2 := mod.v.(*gomap)
+	if !ok1 || !ok2 || orig.t == nil || mod.t == nil {
+		if orig.t == nil && mod.t == nil {
+			return iface{}, false
+		}
+		if orig.t != nil && mod.t != nil && types.Identical(orig.t, mod.t) {
+			eq := i.deepEqual(orig.t, orig.v, mod.v, deepReflect, 0)
+			b, isBool := eq.(bool)
+			if !isBool {
+				b = i.path.decideBool(eq.(*Term))
+			}
+			if b {
+				return iface{}, false
+			}
+		}
+		return mod, true
+	}
+	out := newMap()
+	for k := range mm.keys {
+		mv := mm.vals[k].(iface)
+		ov, present := om.get(mm.keys[k])
+		if !present {
+			out.set(mm.keys[k], mv)
+			continue
+		}
+		if d, changed := i.jsonMergeDiff(ov.(iface), mv); changed {
+			out.set(mm.keys[k], d)
+		}
+	}
+	for k := range om.keys {
+		if _, present := mm.get(om.keys[k]); !present {
+			out.set(om.keys[k], iface{}) // null removes the key
+		}
+	}
+	return iface{i.tMapStringAny(), out}, out.len() > 0
+}
+
 func registerJSONIntrinsics(e *Engine) {
+	e.reg("github.com/evanphx/json-patch/v5.CreateMergePatch", func(fr *frame, args []value) value {
+		i := fr.i
+		a, ok1 := args[0].(*blob)
+		b, ok2 := args[1].(*blob)
+		if !ok1 || !ok2 {
+			panic(unsupported("CreateMergePatch on concrete bytes"))
+		}
+		d, changed := i.jsonMergeDiff(iface{a.t, a.raw}, iface{b.t, b.raw})
+		if !changed {
+			d = iface{i.tMapStringAny(), newMap()}
+		}
+		return tuple{&blob{t: d.t, raw: d.v}, iface{}}
+	})
 	marshal := func(fr *frame, args []value) value {
 		i := fr.i
 		v := args[0].(iface)
